@@ -163,7 +163,10 @@ def tlc(workdir, module, cfg=None, env=None, workers="auto", extra=(), timeout=3
     if env:
         e.update(env)
     meta = os.path.join(workdir, "states")
-    cmd = ["java", "-XX:+UseParallelGC", "-Xss64m", "-DTLA-Library=" + os.pathsep.join(libs),
+    jtmp = os.path.join(workdir, "jtmp")      # TLC unpacks its standard modules into java.io.tmpdir
+    os.makedirs(jtmp, exist_ok=True)          # and leaves them there: keep them in the scratch dir
+    cmd = ["java", "-XX:+UseParallelGC", "-Xss64m", "-Djava.io.tmpdir=" + jtmp,
+           "-DTLA-Library=" + os.pathsep.join(libs),
            "-cp", TLA_CP, "tlc2.TLC", "-metadir", meta, "-noGenerateSpecTE",
            "-workers", str(workers)]
     if cfg:
